@@ -229,7 +229,7 @@ pub fn gen_const_tree(tape: &mut Tape, ty: Ty, depth: usize, refs: &[(String, Ty
 
 fn frontend(truth: &mut truth::Truth, spec: &LangSpec, text: &str, simplify: bool) -> Result<tx::Compiled, (tx::Stage, String)> {
     let hooks = spec.hooks();
-    tx::compile_body(truth, spec, &hooks, text, tx::PipeOpts { const_simplify: simplify, lower: false, debug_info: false }).map_err(|s| (s, tx::diags(truth)))
+    tx::compile_body(truth, spec, &hooks, text, tx::PipeOpts { const_simplify: simplify, lower: false, debug_info: false, stop_after_typecheck: false }).map_err(|s| (s, tx::diags(truth)))
 }
 
 fn check_table(case: &Value, ctx: &mut CheckCtx) -> Outcome {
